@@ -1089,6 +1089,59 @@ fn all_election_scenarios() -> Vec<String> {
     out
 }
 
+// ------------------------------------------------------------------ family: tcpserver (the REAL TCP transport: start_tcp_client on a loopback port, one thread per connection)
+static TCP_SERVER: std::sync::OnceLock<Option<(String, Arc<Databases>)>> = std::sync::OnceLock::new();
+fn tcp_server() -> &'static Option<(String, Arc<Databases>)> {
+    TCP_SERVER.get_or_init(|| {
+        let dbs = mk_dbs();
+        let w = World { dbs: dbs.clone() };
+        let (mut admin, mut arx) = Client::new_empty_and_receiver();
+        for c in ["auth u p", "create-db td ttok", "use-db td ttok", "set k 1"] { run_cmd(&w, &mut admin, &mut arx, c); }
+        admin.left(&dbs);
+        std::mem::forget(arx);
+        let port = { let probe = std::net::TcpListener::bind("127.0.0.1:0").ok()?; probe.local_addr().ok()?.port() };
+        let addr = format!("127.0.0.1:{}", port);
+        { let dbs = dbs.clone(); let a = addr.clone(); std::thread::spawn(move || nundb::network::tcp_ops::start_tcp_client(dbs, &a)); }
+        for _ in 0..400 { if std::net::TcpStream::connect(&addr).is_ok() { std::thread::sleep(std::time::Duration::from_millis(50)); return Some((addr, dbs)); } std::thread::sleep(std::time::Duration::from_millis(10)); }
+        None
+    })
+}
+fn scenario_tcpserver(sc: &str) -> Result<Violations, String> {
+    // sc = "<how the client goes away>.<n sessions>":  fin = reads its replies and closes;  rst = closes with replies unread (the peer sees a connection reset)
+    use std::io::{Read, Write};
+    let p: Vec<&str> = sc.split('.').collect();
+    let n: usize = p.get(1).and_then(|x| x.parse().ok()).ok_or("bad count")?;
+    let (addr, dbs) = match tcp_server() { Some(x) => x, None => return Err("tcp server did not start".into()) };
+    let mut v: Violations = vec![];
+    let counters = |dbs: &Arc<Databases>| -> (usize, usize) {
+        let m = dbs.map.read().unwrap(); let d = m.get("td").unwrap();
+        let watchers = d.watchers.map.read().unwrap().get("k").map_or(0, |l| l.len());
+        (d.connections_count(), watchers)
+    };
+    // wait until earlier scenarios have been released
+    for _ in 0..200 { if counters(dbs) == (0, 0) { break; } std::thread::sleep(std::time::Duration::from_millis(5)); }
+    let before = counters(dbs);
+    for _ in 0..n {
+        let mut s = std::net::TcpStream::connect(addr).map_err(|e| e.to_string())?;
+        let _ = s.set_read_timeout(Some(std::time::Duration::from_millis(300)));
+        s.write_all(b"use-db td ttok\nwatch k\n").map_err(|e| e.to_string())?;
+        // the session is counted and subscribed while it is open
+        let mut seen = false;
+        for _ in 0..200 { let c = counters(dbs); if c.0 >= before.0 + 1 && c.1 >= before.1 + 1 { seen = true; break; } std::thread::sleep(std::time::Duration::from_millis(5)); }
+        chk(&mut v, "C17.use-db-increments", seen);
+        if p[0] == "fin" { let mut buf = [0u8; 256]; let _ = s.read(&mut buf); let _ = s.shutdown(std::net::Shutdown::Both); }
+        drop(s);   // rst: the greeting and the replies are unread, the kernel answers the close with a reset
+        // ... and released once the client is gone, however it went
+        let mut released = false;
+        for _ in 0..400 { if counters(dbs) == before { released = true; break; } std::thread::sleep(std::time::Duration::from_millis(5)); }
+        for l in ["C17.disconnect-releases-session", "C17.count-is-open-sessions", "C17.left-decrements"] { chk(&mut v, l, released && counters(dbs).0 == before.0); }
+        for l in ["C03.disconnect-unsubscribes", "C03.unwatch-all-only-mine"] { chk(&mut v, l, released && counters(dbs).1 == before.1); }
+        if !released { break; }
+    }
+    Ok(v)
+}
+fn all_tcpserver_scenarios() -> Vec<String> { vec!["fin.3".to_string(), "rst.3".to_string()] }
+
 // ------------------------------------------------------------------ family: httpserver (the REAL transport: start_http_client on a loopback port, four worker threads)
 /// every HTTP request is a session of its own: nothing an earlier request did (authentication, database selection) is available to a later one, whichever worker serves it
 fn http_post(addr: &str, body: &str) -> String {
@@ -1140,6 +1193,9 @@ fn scenario_httpserver(sc: &str) -> Result<Violations, String> {
     let secret = { let m = dbs.map.read().unwrap(); m.get("hd").and_then(|d| d.get_value("$$secret".into())) };
     let intact = secret.map_or(false, |e| e.value == "S3CR3T" && e.state != ValueStatus::Deleted);
     chk(&mut v, "C08.request-is-own-session", intact); chk(&mut v, "C08.secure-unchanged", intact);
+    // ---- every request has ended: no session is counted for the database any more (each transport releases the session when the request ends)
+    let conns = { let m = dbs.map.read().unwrap(); m.get("hd").map(|d| d.connections_count()) };
+    chk(&mut v, "C17.request-session-released", conns == Some(0)); chk(&mut v, "C20.session-released", conns == Some(0)); chk(&mut v, "C17.count-is-open-sessions", conns == Some(0));
     let no_extra_db = { let m = dbs.map.read().unwrap(); !m.keys().any(|k| k.starts_with("hx")) };
     chk(&mut v, "C09.request-is-own-session", no_extra_db); chk(&mut v, "C09.auth-gate", no_extra_db);
     Ok(v)
@@ -1239,14 +1295,15 @@ fn families() -> Vec<(&'static str, fn() -> Vec<String>, fn(&str) -> Result<Viol
          ("snapshot", all_snapshot_scenarios, scenario_snapshot),
          ("resync", all_resync_scenarios, scenario_resync),
          ("permchange", all_permchange_scenarios, scenario_permchange),
-         ("httpserver", all_httpserver_scenarios, scenario_httpserver)]
+         ("httpserver", all_httpserver_scenarios, scenario_httpserver),
+         ("tcpserver", all_tcpserver_scenarios, scenario_tcpserver)]
 }
 /// the properties whose clause labels a family can report (every family reports C10.safety when a call panics, so C10 runs them all)
 fn family_props(fam: &str) -> &'static [&'static str] {
     match fam {
         "store" => &["C01", "C02", "C03", "C08"], "strategy" => &["C02", "C13", "C19"], "pending" => &["C15"], "ids" => &["C16"], "keymap" => &["C16"],
         "oplog" => &["C12"], "session" => &["C01", "C08", "C09"], "permchange" => &["C09"], "arbiter" => &["C13"], "watch" => &["C03"], "lines" => &[], "flood" => &[],
-        "connections" => &["C17"], "snapshot" => &["C01", "C06"], "resync" => &["C05"], "election" => &["C07"], "http" => &["C20"], "httpserver" => &["C08", "C09", "C20"],
+        "connections" => &["C17"], "snapshot" => &["C01", "C06"], "resync" => &["C05"], "election" => &["C07"], "http" => &["C20"], "httpserver" => &["C08", "C09", "C17", "C20"], "tcpserver" => &["C03", "C17"],
         _ => &[],
     }
 }
